@@ -97,3 +97,49 @@ func storeIntoNonEscapingLocal(addr ssa.Value) bool {
 		}
 	}
 }
+
+// Loop invariant "private(x)": the object the loop-carried variable x points to is private to the
+// function (no reference to it has left the function's hands). It is checked where the loop is
+// entered and at every back edge by looking at the escape analysis of that path; at the loop head
+// the fresh value of x is marked private, so that what is known about the object survives calls of
+// unknown functions inside the body.
+func privateInvVar(e Expr) (string, bool) {
+	c, ok := e.(*ECall)
+	if !ok || len(c.Args) != 1 {
+		return "", false
+	}
+	f, ok := c.Fun.(*EIdent)
+	if !ok || f.Name != "private" {
+		return "", false
+	}
+	id, ok := c.Args[0].(*EIdent)
+	if !ok {
+		return "", false
+	}
+	return id.Name, true
+}
+
+// isPrivateNow: the pointer value denotes a private object in st.
+func (x *Exec) isPrivateNow(st *State, v Value) bool {
+	p, ok := v.(*PtrV)
+	if !ok || p.Ref == nil {
+		return false
+	}
+	if st.priv[p.Ref.S] {
+		return true
+	}
+	if root, ok := x.refRoot[p.Ref.S]; ok && st.priv[root] {
+		return true
+	}
+	return false
+}
+
+// assumePrivate marks the object behind a (havocked, loop-carried) pointer as private.
+func (x *Exec) assumePrivate(st *State, v Value) {
+	p, ok := v.(*PtrV)
+	if !ok || p.Ref == nil || p.Ref.IsConst {
+		return
+	}
+	x.setRoot(p.Ref, p.Ref.S)
+	st.markPrivate(p.Ref)
+}
